@@ -215,3 +215,16 @@ check("C27", "internal/zzverif/c27",
       floors={"any": {"puts": 20000, "deletes": 10000, "gets": 20000, "batch_writes": 20000, "batches_committed_with_several_ops": 2000, "batches_discarded": 2000, "iterations_memory": 3000, "iterations_pebble": 3000, "iterations_redis": 2000, "ops_memory": 5000, "ops_pebble": 5000, "ops_redis": 3000,
                       "iterations_proper_subset": 2000, "iterations_nonempty_with_start": 1000, "full_content_comparisons": 20000}},
       assumptions=[STANDIN_VRF, "miniredis stands in for a Redis server"])
+
+check("C21", "internal/accumulation",
+      rule="graph stratum (exhaustive): every dependency graph on 1..3 reports where each report depends on any subset of {the other reports, itself, a hash that never appears, a hash in the accumulated history}, dependencies placed in prerequisites / segment-root lookup / both, x every placement of each report as freshly available or waiting in a ready-queue slot (263 k cases); "
+           "history stratum: 2..29 blocks with slot gaps {1,2,3,E-1,E,E+1}, 0..12 available reports per block with dependencies on reports of the same block, earlier blocks, the recent accumulated history, the ready queue, reports arriving in later blocks and hashes that never appear; every 4th block cuts accumulation at a random n < |W*|. "
+           "Each block is driven through the singleton with the production functions (UpdateImmediatelyAccumulateWorkReports, UpdateQueuedWorkReports, UpdateAccumulatableWorkReports, updateXi, updateVartheta); W!, WQ, W* (membership and order), xi' and the ready queue' are compared with a model written from GP 12.4-12.12, 12.31-12.33 (dependency sets compared as sets), "
+           "then the stated invariants are asserted on the code's own output (no report of the history chosen again, none chosen twice, dependents after their in-block dependencies, no accumulated report or accumulated dependency left in the queue). The model's posterior state is carried to the next block. distinct_nontrivial = distinct graphs x placements + distinct histories",
+      technique="reference-model monitor (GP 12.x queue equations) + invariant monitor on the code's output, exhaustive small dependency graphs and generated block histories",
+      level_text="Every dependency graph on up to 3 reports (all placements) and generated multi-block histories are run through the production queue functions and compared with an independent model of the equations; held = no divergence and no invariant violation on what was explored.",
+      note="In-package harness (updateXi/updateVartheta are unexported). The PVM is not involved: n (how many of W* were accumulated) is chosen by the harness. Precondition as established by guarantee validation: package hashes are unique and freshly available reports are not in the accumulated history.",
+      shards=(8, 16), env={"JAM_FUZZ": "1"},
+      floors={"any": {"graphs_compared": 263000, "blocks_compared": 10000, "blocks_after_a_slot_gap": 3000, "blocks_after_a_gap_of_an_epoch_or_more": 1000, "blocks_releasing_queued_reports": 1000,
+                      "blocks_with_gas_cut": 500, "blocks_with_in_block_dependency_order_checked": 1000}},
+      exhaustive="all dependency graphs on 1..3 reports x all placements", assumptions=[STANDIN_VRF])
